@@ -87,8 +87,10 @@ pub struct CliRun {
 
 pub fn run_cli(cwd: &Path, args: &[String]) -> Result<CliRun, String> {
     ensure_cli_built()?;
-    let out = Command::new(cli_binary())
-        .args(args)
+    // watchdog: a command that never finishes must not block the check (error text starts with `timeout:`)
+    let limit = std::env::var("VERIF_CLI_TIMEOUT").ok().and_then(|s| s.parse::<u64>().ok()).unwrap_or(120);
+    let mut cmd = Command::new(cli_binary());
+    cmd.args(args)
         .current_dir(cwd)
         .env_remove("RUST_BACKTRACE")
         .env_remove("RUST_LOG")
@@ -100,8 +102,48 @@ pub fn run_cli(cwd: &Path, args: &[String]) -> Result<CliRun, String> {
         .env_remove("all_proxy")
         .env("NO_PROXY", "127.0.0.1,localhost")
         .stdin(Stdio::null())
-        .output()
-        .map_err(|e| format!("spawn cli: {}", e))?;
+        .stdout(Stdio::piped())
+        .stderr(Stdio::piped());
+    {
+        use std::os::unix::process::CommandExt;
+        cmd.process_group(0);
+    }
+    let mut child = cmd.spawn().map_err(|e| format!("spawn cli: {}", e))?;
+    let (mut so, mut se) = (child.stdout.take().unwrap(), child.stderr.take().unwrap());
+    let h1 = std::thread::spawn(move || {
+        let mut b = Vec::new();
+        let _ = std::io::Read::read_to_end(&mut so, &mut b);
+        b
+    });
+    let h2 = std::thread::spawn(move || {
+        let mut b = Vec::new();
+        let _ = std::io::Read::read_to_end(&mut se, &mut b);
+        b
+    });
+    let start = std::time::Instant::now();
+    let status = loop {
+        match child.try_wait() {
+            Ok(Some(st)) => break st,
+            Ok(None) => {}
+            Err(e) => return Err(format!("wait for cli: {}", e)),
+        }
+        if start.elapsed().as_secs() >= limit {
+            // the whole group: the CLI and a rustfmt child it may be waiting for
+            let _ = Command::new("kill").args(["-9", "--", &format!("-{}", child.id())]).status();
+            let _ = child.kill();
+            let _ = child.wait();
+            let _ = h1.join();
+            let _ = h2.join();
+            return Err(format!("timeout: `graphql-client {}` did not finish within {} s and was killed", args.join(" "), limit));
+        }
+        std::thread::sleep(std::time::Duration::from_millis(5));
+    };
+    struct Out {
+        status: std::process::ExitStatus,
+        stdout: Vec<u8>,
+        stderr: Vec<u8>,
+    }
+    let out = Out { status, stdout: h1.join().unwrap_or_default(), stderr: h2.join().unwrap_or_default() };
     Ok(CliRun { status: out.status, stdout: out.stdout, stderr: String::from_utf8_lossy(&out.stderr).into_owned() })
 }
 
